@@ -15,7 +15,7 @@ array layouts (`type_chunk_roundtrip`), and the file level: for every abstract t
 of get_res_configs, the dictionary facts behind the listings, and the composition offsets → entries
 under an explicit hypothesis (`table_roundtrip_partial`, now discharged by `type_chunk_roundtrip`).
 Domain of the file-level theorems: Spec/ArscFile.lean (`wfTable`; 64-byte configurations, 288-byte
-package headers, strings shorter than 128 units/bytes, no styles).  On top of the parse: `_analyse`
+package headers, strings shorter than 0x8000 units/bytes, no styles).  On top of the parse: `_analyse`
 does not raise and `resource_values` is the table's (`table_resource_values`), `get_packages_names`
 (`table_packages_names`); the other listings and the resolver's text rendering are not composed in
 Lean (correspondence and oracle cover them).
@@ -234,7 +234,8 @@ theorem entry_roundtrip_complex (flags key parent : Nat) (items : List (Nat × (
   decodeEntryL_complex flags key parent items rest hf hc hkey hp hn hi
 
 /-- (3) string pools: wherever an encoded pool (UTF-16 or UTF-8; strings of BMP code points without
-    surrogates, shorter than 128 units and 128 UTF-8 bytes — `wfStr`) sits in a file, `ARSCHeader` +
+    surrogates, shorter than 0x8000 units and 0x8000 UTF-8 bytes, so also the two-byte UTF-8 length
+    prefixes — `wfStr`) sits in a file, `ARSCHeader` +
     `StringBlock` read it, the chunk ends where the encoding ends, and `getString(i)` is the UTF-8
     text of string `i` for every `i` -/
 theorem pool_roundtrip (bs r : List Nat) (p : Nat) (u8 : Bool) (strs : List (List Nat))
@@ -284,6 +285,13 @@ theorem table_roundtrip_full (l : Layout) :
     TableRoundtrip (fun t => wfTable l t = true) (encTable l) viewParsed viewTable :=
   fun t hwf => viewParsed_enc l t hwf
 
+/-- (5) bytes after the table chunk (`trailing`) are never looked at: same parse, same content -/
+theorem table_roundtrip_trailing (l : Layout) (t : Table) (tr : List Nat) (hwf : wfTable l t = true)
+    (htr : (encTable l t).length + tr.length < 4294967296) :
+    parseTable (encTable l t ++ tr).toArray = some (parsedOf l t) ∧
+    (parseTable (encTable l t ++ tr).toArray).bind viewParsed = some (viewTable t) :=
+  ⟨parseTable_enc_trailing l t tr hwf htr, viewParsed_enc_trailing l t tr hwf htr⟩
+
 /-- listing: `get_packages_names()` on an encoded table is the distinct package names in order -/
 theorem table_packages_names (l : Layout) (t : Table) (hwf : wfTable l t = true) :
     (parseTable (encTable l t).toArray).map packagesNames
@@ -326,6 +334,10 @@ example : ComplexFits (encComplex 1 7 0 [(257, (16, 1)), (0, (1, 300))]).toArray
 example : readEntry (encComplex 1 7 0 [(257, (16, 1)), (0, (1, 300))]).toArray 0 40
     = some ⟨1, 7, .complex 0 [(257, (16, 1)), (0, (1, 300))]⟩ := by decide
 example : wfStr [104, 0x4e2d, 233] = true := by decide
+example : wfStr (List.replicate 200 233) = true := by decide +kernel
+example : (poolOf true [List.replicate 200 233, [104]]).getString 0 = some (utf8s (List.replicate 200 233)) :=
+  pool_getString true [List.replicate 200 233, [104]] (by decide +kernel) 0 (by decide)
+example : (encStr8 (List.replicate 200 233)).take 4 = [0x80, 200, 0x81, 0x90] := by decide +kernel
 example : (poolOf true [[104, 105], [0x4e2d, 233]]).getString 1 = some [228, 184, 173, 195, 169] := by decide
 example : (poolOf false [[104, 105], [0x4e2d, 233]]).getString 1 = some (utf8s [0x4e2d, 233]) :=
   pool_getString false [[104, 105], [0x4e2d, 233]] (by decide) 1 (by decide)
